@@ -79,7 +79,18 @@ func (x *runner) dirtyAppend(it secs2.Item, enc []byte) string {
 	return ""
 }
 
+// one never lets implementation misbehaviour abort the run: a panic anywhere below is an oracle
+// failure for this tree and the run continues.
 func (x *runner) one(n *s2t.Node, class string) {
+	defer func() {
+		if p := recover(); p != nil {
+			x.c.Fail("implementation panicked while the tree was built/encoded/decoded", "T "+trunc(n.SpecString())+fmt.Sprintf(" (%v)", p))
+		}
+	}()
+	x.oneTree(n, class)
+}
+
+func (x *runner) oneTree(n *s2t.Node, class string) {
 	c := x.c
 	spec := n.SpecString()
 	it := s2t.Build(n, x.r, func(s string) { c.Count("shape/" + s) })
@@ -361,6 +372,9 @@ func trunc(s string) string {
 func main() {
 	c := vh.New()
 	x := &runner{c: c, r: c.Rng}
+	s2t.OnDecodedChildFailure = func(raw []byte, err error) {
+		c.Fail("Decode rejects a valid (possibly non-canonical) encoding used as a decoded child", "D "+trunc(vh.Hex(raw)))
+	}
 	r := c.Rng
 	for _, n := range s2t.Corpus(r, c.Tier) {
 		x.one(n, "corpus")
